@@ -332,7 +332,7 @@ func planFor(prop string) *PropPlan {
 		p.Modes = []Mode{{Name: "layout", Quick: 300, Deep: 9000,
 			Run:    func(bin string, seed uint64) *RunReport { return runLayoutGenerated(bin, seed) },
 			Replay: ReplayScenario},
-			{Name: "conc", Quick: 12, Deep: 300,
+			{Name: "conc", Quick: 24, Deep: 400,
 				Run:    func(bin string, seed uint64) *RunReport { return runConcSample(bin, prop, seed, false) },
 				Replay: ReplayConc}}
 		p.Rule = "seeded sequential histories in which every command draws a fresh start directory (depth 0-3, names with spaces) and --dir spelling (none, absolute, relative, the .ergo directory itself relative or absolute, trailing slash, .. segments); the store layout is drawn per run from plans-only, legacy events-only, both files (the unused one holds a decoy), lock-less, and shadowed by a decoy store in the enclosing directory; init (with and without a directory argument) and lock removal are inserted at seeded points; every step is judged by the sequential refinement oracle (a write through one spelling must be visible through all others; where must name the project's .ergo; init changes nothing); non-trivial = at least one mutation in effect; distinct = distinct trace digests"
